@@ -197,6 +197,30 @@ def run(ctx):
         else:
             ctx.ok("R18.2", "SerializationFormat::%s" % vname, "%s in %s" % (sorted(allc)[0], sorted(per)))
     ctx.floor("R18.2", "format_dispatch_arms", n_disp, 6)
+    # ---- R18.2b nothing between the serde back-end and the caller
+    ctx.rule("R18.2b", "the text handed to the caller (and to the back-end on the way in) is the serde back-end's own: the serialization entry points call no workspace helper and no string-rewriting method on it (escaping, re-quoting, trimming or re-encoding belongs to the back-end, whose reader is its exact inverse)")
+    from rules.lefrules import LOSSY_TEXT
+    entry = [f for f in F.fns.values() if f.id.startswith("layout21utils::ser::") and f.kind != "Closure" and not f.derived and
+             re.search(r"ser::(SerializationFormat::(to_string|from_str|save|open)|save|open|SerdeFile::(save|open))$", f.short)]
+    entry_ids = {f.id for f in entry}
+    n_entry = 0
+    for f in entry:
+        n_entry += 1
+        b = Body(f)
+        bad = []
+        for bi, t in b.calls():
+            cid = callee_id(t) or ""
+            nm = callee_name(t) or ""
+            if cid.startswith(("layout21", "gds21", "lef21")) and cid not in entry_ids and not re.search(r"ser::Error as std::convert::From<.*>>::from$", nm):
+                bad.append((bi, nm))
+            elif LOSSY_TEXT.search(nm) or re.search(r"string::String::(push|push_str|insert|insert_str|replace_range)$|::chars$|::char_indices$|::bytes$|fmt::format$", nm):
+                bad.append((bi, nm))
+        key = f.short
+        if bad:
+            ctx.violation("R18.2b", key, "%s passes the serialized text through %s: what is written is no longer what the back-end's reader inverts (e.g. a hand-made \\u escape is wrong for characters outside the basic plane)" % (f.short, ", ".join(sorted({x[1].split("::")[-1] for x in bad}))), b.site(bad[0][0]), key)
+        else:
+            ctx.ok("R18.2b", key, "back-end text untouched")
+    ctx.floor("R18.2b", "serialization_entry_points", n_entry, 4)
     # distinct formats must use distinct back-ends (Json and Yaml must not collapse)
     used = {}
     for vname, per in table.items():
